@@ -1072,9 +1072,8 @@ def c14_10(ctx: Ctx) -> RuleResult:
         for g_, t_ in context_chain(ctx, f, X.at(f, c)):
             mr = positional_args(s, t_)[:2]
             if len(mr) == 2 and mr[0] is not None and mr[0][0] == "sub":
-                sels = _bool_selectors(mr[0][2])
-                if sels:
-                    break
+                # the selector as every level of the (single) caller chain names it
+                sels += [x for x in _bool_selectors(mr[0][2]) if x not in sels]
         st_ = c
         while parent(st_) is not None and not isinstance(st_, ast.stmt):
             st_ = parent(st_)
